@@ -434,3 +434,23 @@ PROPS["C11"]["lean"] = PROPS["C11"]["lean"] + ["DM.Props.C11"]
 PROPS["C11"]["explanation"] += " Theorem run_listEmpty_iff (DM/Props/C11.lean): the encoder model answers SymbolListEmpty if and only if the supplied list is empty - none of the ~25 functions below run (main loop, six mode encoders, end-of-data handlers) can produce that error (Lemmas/NoLE.lean); run_error_nonempty: every refusal on a non-empty list is something else."
 PROPS["C11"]["level_text"] = ("Partial proof: the planner never panics and always terminates (theorem over the planner model, all inputs); the error is SymbolListEmpty iff the list is empty (theorem over the encoder model);"
     " macro slicing never panics (C16 macro_total); the mode encoders are covered by encoder-model correspondence including injected plans; the rest is exploration under catch_unwind.")
+
+# ---- C13 / C18: segment structure of the encoder's output (Lemmas/PlanProv.lean, Lemmas/Trace.lean, Props/C13.lean) ----
+_SEG_THMS = (" Encoder side (DM/Props/C13.lean, for every message, symbol list, prefix and every plan within the side condition of the round-trip theorem - no EDIFACT entry,"
+    " no latch to a non-ASCII mode planned for the last four characters): run_segments - a successful run of the encoder model splits into segments, one per call of a mode"
+    " encoder, such that at the start of every segment the decoder model run on the whole stream is at the top of its ASCII loop having produced exactly the characters in front"
+    " of the segment (the segment starts are the positions in ASCII context; what follows the last segment is padding); latches_planned - a segment written in ASCII mode holds"
+    " ASCII codewords only (no 230/231/238/239/240 inside it) and every other segment starts with the latch of a mode the plan names (plan provenance: the control triple"
+    " (planned_switches, encodation, new_mode) is changed only by maybe_switch_mode, set_ascii_until_end and the main loop taking the latch - Lemmas/PlanProv.lean, valid for every plan, EDIFACT included);"
+    " latches_enabled - combined with plan_modes_enabled: if the plan is the planner model's answer for a mode set, every latch at a segment start belongs to an enabled mode.")
+for _p in ("C13", "C18"):
+    PROPS[_p]["lean"] = list(PROPS[_p]["lean"]) + ["DM.Props.C13"]
+    PROPS[_p]["explanation"] += _SEG_THMS
+PROPS["C13"]["level_text"] = ("Partial proof: both halves are theorems about the models - the planner's plan names only enabled modes (all inputs), and the encoder latches only into modes"
+    " the plan names, with no latch codeword inside an ASCII segment (all inputs, all plans within the round-trip side condition: 93 % of the optimiser's plans in the sweep);"
+    " for EDIFACT-mixing plans, late latches and the 'final few characters' clause it is exploration with the reference decoder's mode trace as oracle.")
+PROPS["C13"]["unproved"] = ["latches_planned for plans that use EDIFACT or latch into a non-ASCII mode within the last four characters; the clause 'ASCII carries only the final few characters when ASCII is disabled' (needs the planner-encoder coupling)"]
+PROPS["C18"]["level_text"] = ("Partial proof: plan shape (enabled modes only, positions non-increasing ending at 0), planner totality, and 'every latch in the encoder's output is the latch of a planned mode'"
+    " (segment theorem, plans within the round-trip side condition) are theorems about the models; that every planned non-ASCII mode with at least one character is latched, in plan order, and that the predicted size is met"
+    " is exploration with oracle plus planner/encoder model correspondence.")
+PROPS["C18"]["unproved"] = ["latch sequence = planned non-ASCII modes in order (proved: membership, latches_planned); planner_predicts_size"]
